@@ -268,8 +268,9 @@ def build_deps_cache(force=False):
 class Harness:
     def __init__(self, name, timeout=300, tier="quick", desc="", bounds="", funcs=None,
                  stubs=None, assumes=None, expect_cover=True, extra=None, group=None,
-                 unwind_is_violation=False):
+                 unwind_is_violation=False, native_confirm=None):
         self.unwind_is_violation = unwind_is_violation
+        self.native_confirm = native_confirm
         self.name = name
         self.timeout = timeout
         self.tier = tier          # "quick": run in both tiers; "thorough": thorough only
@@ -348,6 +349,15 @@ def run_kani_harness(h, src, target_dir, logdir, playback=False):
     rc, out, secs, timed_out = sh(full, cwd=src, timeout=h.timeout, out=logf)
     r = parse_kani(out)
     r["name"] = h.name
+    if r["compile_error"]:
+        ls_ = [l for l in out.splitlines() if "unstable" not in l and "register_tool" not in l]
+        ex = []
+        for i, l in enumerate(ls_):
+            if l.startswith("error"):
+                ex += ls_[i:i + 7]
+            if len(ex) > 40:
+                break
+        r["err_excerpt"] = "\n".join(x[:240] for x in ex[:40])
     r["wall_s"] = round(secs, 1)
     r["timed_out"] = timed_out
     r["rc"] = rc
@@ -469,7 +479,10 @@ def make_replay(prop, h, res, src_scratch, target_dir, logdir):
         f.write(test_src + "\n")
     with open(os.path.join(rdir, "info.json"), "w") as f:
         json.dump(info, f, indent=1)
-    reproduced, note = run_replay(rdir)
+    if h.native_confirm:
+        reproduced, note = h.native_confirm(test_src, rdir)
+    else:
+        reproduced, note = run_replay(rdir)
     info["reproduced_natively"] = reproduced
     info["replay_note"] = note
     with open(os.path.join(rdir, "info.json"), "w") as f:
@@ -521,7 +534,9 @@ def run_replay(rdir):
             for ran in re.finditer(r"test result: (\w+)\. (\d+) passed; (\d+) failed", out):
                 if int(ran.group(2)) + int(ran.group(3)) > 0:
                     break
-            if ran and int(ran.group(3)) > 0:
+            if ran and int(ran.group(3)) > 0 and re.search(r"concrete_playback\.rs|`kani::assume` should always hold|Not enough det vals", out):
+                notes.append("%s profile: playback is not faithful for this harness (stubs are not applied natively / leftover values): not a reproduction" % pname)
+            elif ran and int(ran.group(3)) > 0:
                 pm = re.search(r"panicked at (.*?):\n(.*)", out)
                 if pm is None:
                     pm = re.search(r"(Failed Checks|assertion failed)(.*)", out)
@@ -743,13 +758,8 @@ def finish(prop, run):
         print("UNDECIDED property=%s harness=%s: %s" % (prop, h.name, r["why"][:300]))
     for h, r in run["errors"]:
         print("ERROR property=%s harness=%s: %s (log tail follows)" % (prop, h.name, r["why"][:300]))
-        try:
-            with open(r["log"], errors="replace") as f:
-                lines = [l for l in f.read().splitlines() if "unstable" not in l and "register_tool" not in l and not l.startswith("Unwinding loop")]
-            errl = [l for l in lines if l.startswith("error") or "-->" in l][:20]
-            print("\n".join(errl[:20]))
-        except Exception:
-            pass
+        if r.get("err_excerpt"):
+            print(r["err_excerpt"])
     npass = sum(1 for h, r in run["results"] if r["verdict"] == "pass")
     print("%s: %d harness instances, %d pass, %d known-finding, %d violation, %d undecided, %d error, %.0f s" % (
         prop, len(run["results"]), npass, len(run["known_hits"]), len(run["violations"]), len(run["undecided"]), len(run["errors"]), run["wall_s"]))
